@@ -13,6 +13,10 @@ CHECKS = {
          "other",
          "Decides for the whole module, on every run: no map range lets iteration order reach output or diagnostics; no generator code reads clock/env/cwd/randomness or runs goroutines; every YAML mapping decodes into a map or struct, so key order is erased. Together these imply determinism and key-order independence modulo the trusted formatter and YAML decoder; byte identity itself is not executed.",
          "DESIGN.md §4 C08"),
+ "C10": ("who-may-call scan of file-mutating APIs, SSA dominance (write only behind Build's success edge, first-failure loop exit), error-flow taint for every error-yielding call site (rule E), writer provenance for --quiet",
+         "other",
+         "Decides the code-shape of the exit/diagnostics/output-file contract for all inputs: the only file write is os.WriteFile(outputFile) behind a successful Build and is the last runner step; a failing step stops the run and its error reaches main's os.Exit(1); no error is dropped anywhere in the module; count and numbered list are the same Collection; --quiet switches the only writer. I/O atomicity and cobra are trusted.",
+         "DESIGN.md §4 C10"),
 }
 NOT_YET = "check not built yet in this session (design in DESIGN.md §4); will be claimed once its rules run on /repo"
 
